@@ -4,6 +4,8 @@ import (
 	"fmt"
 	"math/rand"
 
+	bexpr "github.com/hashicorp/go-bexpr"
+
 	"verif/internal/mon"
 	"verif/internal/refsem"
 	"verif/internal/univ"
@@ -76,8 +78,57 @@ func c05Places(r *rand.Rand, datum *univ.Node, opt *refsem.Options) []c05Place {
 	return out
 }
 
+// c05Escapes: absent keys whose JSON-Pointer spelling needs escapes, next to
+// present keys that a wrong decoding would hit ("~01" is "~1", not "/").
+var c05EscapeData = univ.IfaceMap("m", univ.IfaceMap("/", univ.Int(1), "~", univ.Int(2), "a/b", univ.Int(3), "x", univ.Int(4)), "/", univ.Int(5))
+
+var c05EscapeCases = []struct{ expr, want string }{
+	{`"/m/~01" == 1`, "F"}, {`"/m/~01" != 1`, "T"}, {`"/m/~01" is empty`, "T"}, {`"/m/~01" is not empty`, "F"}, {`1 in "/m/~01"`, "F"}, {`"/m/~01" matches "1"`, "F"}, {`any "/m/~01" as v { v == 1 }`, "F"}, {`all "/m/~01" as v { v == 9 }`, "T"},
+	{`"/m/~1" == 1`, "T"}, {`"/m/~0" == 2`, "T"}, {`"/m/a~1b" == 3`, "T"}, {`"/m/a~01b" == 3`, "F"}, {`"/m/~00" == 2`, "F"}, {`"/~01" == 5`, "E"}, {`"/~1" == 5`, "T"}, {`m["~1"] == 1`, "F"}, {`m["/"] == 1`, "T"},
+}
+
+func c05Escapes(c *mon.Ctx, idx int) {
+	cs := c05EscapeCases[(idx/10)%len(c05EscapeCases)]
+	for _, withUnknown := range []bool{false, true} {
+		var opts []bexpr.Option
+		want := cs.want
+		if withUnknown {
+			opts = append(opts, bexpr.WithUnknownValue(1))
+			// the unknown value 1 replaces only what is absent
+			switch cs.expr {
+			case `"/m/~01" == 1`, `1 in "/m/~01"`:
+				want = map[string]string{`"/m/~01" == 1`: "T", `1 in "/m/~01"`: "E"}[cs.expr]
+			case `"/m/~01" != 1`:
+				want = "F"
+			case `"/m/~01" is empty`, `"/m/~01" is not empty`, `"/m/~01" matches "1"`, `any "/m/~01" as v { v == 1 }`, `all "/m/~01" as v { v == 9 }`:
+				want = "E"
+			case `"/m/a~01b" == 3`, `"/m/~00" == 2`:
+				want = "F"
+			case `m["~1"] == 1`:
+				want = "T"
+			case `"/~01" == 5`:
+				want = "F"
+			}
+		}
+		ev, err, pan, _ := createEval(cs.expr, opts...)
+		if pan != "" || err != nil {
+			c.Violation("C05 escape-case-rejected", "a fixed escape expression was rejected", map[string]any{"expression": cs.expr, "error": fmt.Sprint(err) + pan})
+			return
+		}
+		o := evaluate(ev, c05EscapeData.Datum())
+		c.Evals(1)
+		if o.Class3() != want {
+			c.Violation(fmt.Sprintf("C05 escaped-absent-key got=%s want=%s unknown=%v", o.Class3(), want, withUnknown), "an absent key spelled with JSON-Pointer escapes does not follow the table", map[string]any{"expression": cs.expr, "with_unknown_value_1": withUnknown, "observed": o.String(), "expected": want})
+		}
+	}
+	c.Count("escape_cases")
+}
+
 func c05Run(c *mon.Ctx, idx int) {
 	r := c.RNG(idx)
+	if idx%10 == 0 {
+		c05Escapes(c, idx)
+	}
 	doc := univ.GenObj(r, 3, true)
 	seed := r.Int63()
 	datum := univ.Represent(rand.New(rand.NewSource(seed)), doc, univ.Policy{Mode: idx % 5})
@@ -293,7 +344,7 @@ func init() {
 		NumCases:    func(tier string) int { return tierN(tier, 4000, 150000) },
 		Run:         c05Run,
 		Required: func(tier string) []string {
-			l := []string{"unknown:inserted-compared", "unknown:not-applicable", "resolving_unaffected", "alias_workload", "history_sequences", "place-quant-same-name", "unknown:interface{}"}
+			l := []string{"unknown:inserted-compared", "unknown:not-applicable", "resolving_unaffected", "alias_workload", "escape_cases", "history_sequences", "place-quant-same-name", "unknown:interface{}"}
 			for _, k := range kinds {
 				l = append(l, "place-quant:"+k)
 				for _, op := range c01Ops {
